@@ -78,6 +78,9 @@ def _is_first_line_of_note(line: str, zid: str) -> bool:
     priority, optional modify date, ZID). Lines that merely mention the ZID in
     their text do not count.
     """
+    if line[:1].isspace():
+        # An indented line is a bullet or continuation line of another note.
+        return False
     words = line.split()
     if not words or words.pop(0) not in ("-", "o", "x", "~", "<", ">"):
         return False
